@@ -50,13 +50,15 @@ func genC17Conc(t *rapid.T) C17Conc {
 
 type slowDB struct{ d time.Duration }
 
-func (s slowDB) GetIPInfo(net.IP) (ipinfo.IPInfo, error) {
+func (s slowDB) GetIPInfo(ip net.IP) (ipinfo.IPInfo, error) {
 	if s.d > 0 {
 		t := time.Now()
 		for time.Since(t) < s.d {
 		}
 	}
-	return ipinfo.IPInfo{CountryCode: "US"}, nil
+	// every client network has its own AS number (a process keeps meeting new ones)
+	n := len(ip)
+	return ipinfo.IPInfo{CountryCode: "US", ASN: ipinfo.ASN{Number: 64512 + int(ip[n-1]) + int(ip[n-2])<<8 + int(ip[n-3])<<16, Organization: "org"}}, nil
 }
 
 type ivl struct{ lo, hi time.Time }
